@@ -31,12 +31,7 @@ func (w *World) verifyContract(con *Contract, opts *RunOpts) (res *FuncResult) {
 	}
 	res.Fn = fn
 	res.Stats.SSAInstrs = countInstrs(fn)
-	sweepOnly := true
-	for _, cl := range con.Clauses {
-		if cl.Kind != "errdrop" && cl.Kind != "maprange" && cl.Kind != "props" {
-			sweepOnly = false
-		}
-	}
+	sweepOnly := con.sweepOnly()
 	if sweepOnly {
 		// the clauses of this contract are consumed by the error-propagation and
 		// map-iteration families; there is nothing to execute symbolically
